@@ -11,6 +11,7 @@ import AoVerif.Lemmas.CentroidSym
 import AoVerif.Lemmas.CentroidCorr
 import AoVerif.Lemmas.CentroidCirc
 import AoVerif.Lemmas.CentroidComplex
+import AoVerif.Lemmas.CentroidPad
 
 namespace AoVerif.Props.C15
 open Finset AoVerif AoVerif.Centroid
@@ -310,15 +311,221 @@ theorem corr_displacement {ny nx pad my mx : ℕ} (hny : 0 < ny) (hnx : 0 < nx) 
     unfold zeroPad; rw [if_pos ⟨hu, hv⟩]; exact hne
   · exact pointSym_shifted_circCorr hy hx _ sy sx hmy hmx _ hS hnowrap
 
-/-
-NOT PROVED (listed in chk.assumptions) — two reductions of `corr_displacement`'s hypotheses to statements about the
-un-padded input arrays:
-  * `hdisp` from "im = numpy.roll(ref, (sy, sx)) with the content of `ref` staying inside the n-frame" (needs: the minimum
-    removed by `correlation_centroid` is the same for `im` and `ref`, and zero-padding commutes with a roll that does not wrap);
-  * `hnowrap` from "the content of `ref` lies in a box of extent (wy, wx) and the lags s ± (w − 1) lie in the window
-    [−⌊P/2⌋, P − ⌊P/2⌋ − 1]" (support of the autocorrelation).
-Both are what the displacement oracle generates on the real code on every run (its cases satisfy exactly these box conditions).
--/
+/-! ### `corr_displacement` on the un-padded inputs
+
+The two hypotheses of `corr_displacement` that talk about the padded frames (`hdisp`, `hnowrap`) are consequences of
+statements about the `ny × nx` input arrays: `im = numpy.roll(ref, (sy, sx))` with the content of `ref` (the pixels
+above its minimum — `correlation_centroid` removes the minimum of both arrays first) in a box of extent `(wy, wx)` that
+stays inside the frame, and the extreme correlation lags `s ± (w − 1)` inside the window `[−⌊P/2⌋, P − ⌊P/2⌋ − 1]` of
+each padded axis (`P = n·padding`; automatic for padding ≥ 2, see `corr_displacement_of_roll_pad_ge_two`). -/
+
+section field
+variable {K : Type} [Field K] [LinearOrder K] [IsStrictOrderedRing K]
+
+/-- **(1) `hdisp` from the roll.**  If `im = numpy.roll(ref, (sy, sx))` on the `ny × nx` frame and the content of `ref`
+(pixels different from its minimum) stays inside the frame, then both arrays have the same minimum and the zero-padded
+`im − min im` is the zero-padded `ref − min ref` rolled by `(sy, sx)` on the PADDED axes — for every padding ≥ 1 -/
+theorem corr_hdisp_of_roll {ny nx pad : ℕ} (hny : 0 < ny) (hnx : 0 < nx) (hpad : 0 < pad) (sy sx : ℤ) (ref : ℕ → ℕ → K)
+    (hin : ContentInside ny nx sy sx (fun u v => ref u v - min2 ny nx ref)) :
+    min2 ny nx (roll2 ny nx sy sx ref) = min2 ny nx ref ∧
+    ∀ u < ny * pad, ∀ v < nx * pad,
+      zeroPad ny nx 0 (fun u v => roll2 ny nx sy sx ref u v - min2 ny nx (roll2 ny nx sy sx ref)) u v
+        = roll2 (ny * pad) (nx * pad) sy sx (zeroPad ny nx 0 (fun u v => ref u v - min2 ny nx ref)) u v := by
+  refine ⟨min2_roll2 hny hnx sy sx ref, ?_⟩
+  rw [min2_roll2 hny hnx]
+  exact zeroPad_roll2 hny hnx (Nat.le_mul_of_pos_right _ hpad) (Nat.le_mul_of_pos_right _ hpad) sy sx
+    (fun u v => ref u v - min2 ny nx ref) hin
+
+end field
+
+/-- **(2) `hnowrap` from the box condition.**  If the content of the reference `y` lies in a box of extent `(wy, wx)`
+and the lags `s ± (w − 1)` lie in `[−⌊P/2⌋, P − ⌊P/2⌋ − 1]` on both axes, the non-zero part of the correlation
+surface of `cross_correlate` does not wrap around the padded frame (the hypothesis `hnowrap` of `corr_displacement`) -/
+theorem corr_hnowrap_of_box {ny nx pad my mx : ℕ} (hny : 0 < ny) (hnx : 0 < nx) (hpad : 0 < pad) {ζy ζx : ℂ}
+    (hζy : IsPrimitiveRoot ζy (ny * pad)) (hζx : IsPrimitiveRoot ζx (nx * pad)) (sy sx : ℤ)
+    (x y : ℕ → ℕ → ℝ) (hx0 : ∀ u v, 0 ≤ x u v) (hy0 : ∀ u v, 0 ≤ y u v)
+    (hdisp : ∀ u < ny * pad, ∀ v < nx * pad,
+      zeroPad ny nx 0 x u v = roll2 (ny * pad) (nx * pad) sy sx (zeroPad ny nx 0 y) u v)
+    (hmy : (my : ℤ) = ((ny * pad / 2 : ℕ) : ℤ) + sy) (hmx : (mx : ℤ) = ((nx * pad / 2 : ℕ) : ℤ) + sx)
+    {y0 x0 wy wx : ℕ} (hbox : ContentInBox ny nx y0 x0 wy wx y)
+    (hloy : -((ny * pad / 2 : ℕ) : ℤ) ≤ sy - ((wy : ℤ) - 1))
+    (hhiy : sy + ((wy : ℤ) - 1) ≤ ((ny * pad : ℕ) : ℤ) - ((ny * pad / 2 : ℕ) : ℤ) - 1)
+    (hlox : -((nx * pad / 2 : ℕ) : ℤ) ≤ sx - ((wx : ℤ) - 1))
+    (hhix : sx + ((wx : ℤ) - 1) ≤ ((nx * pad : ℕ) : ℤ) - ((nx * pad / 2 : ℕ) : ℤ) - 1) :
+    ∀ a < ny * pad, ∀ b < nx * pad,
+      (crossCorrelate ny nx pad (fun m => ζy ^ m) (fun m => ζx ^ m) (fun m => ζy⁻¹ ^ m) (fun m => ζx⁻¹ ^ m)
+        (1 / ((ny * pad : ℕ) : ℂ)) (1 / ((nx * pad : ℕ) : ℂ)) 0 (starRingEnd ℂ) (fun z => ‖z‖) idm
+        (fun u v => (x u v : ℂ)) (fun u v => (y u v : ℂ))).px a b ≠ 0 →
+      a ≤ 2 * my ∧ 2 * my - a < ny * pad ∧ b ≤ 2 * mx ∧ 2 * mx - b < nx * pad := by
+  have hy : 0 < ny * pad := Nat.mul_pos hny hpad
+  have hx : 0 < nx * pad := Nat.mul_pos hnx hpad
+  have hS := fun a b => (crossCorrelate_real hζy hy hζx hx x y hx0 hy0 a b).trans
+    (circCorr_congr hy hx (zeroPad ny nx 0 y) hdisp _ _)
+  exact nowrap_of_box hy hx y sy sx hmy hmx hbox hloy hhiy hlox hhix _ hS
+
+/-- `corr_displacement` with `hnowrap` discharged by the box condition; non-negativity is only needed inside the frame
+(`cross_correlate` reads nothing else) -/
+theorem corr_displacement_of_box {ny nx pad : ℕ} (hny : 0 < ny) (hnx : 0 < nx) (hpad : 0 < pad) {ζy ζx : ℂ}
+    (hζy : IsPrimitiveRoot ζy (ny * pad)) (hζx : IsPrimitiveRoot ζx (nx * pad)) (sy sx : ℤ) {t : ℝ} (ht1 : t < 1)
+    (x y : ℕ → ℕ → ℝ) (hx0 : ∀ u < ny, ∀ v < nx, 0 ≤ x u v) (hy0 : ∀ u < ny, ∀ v < nx, 0 ≤ y u v)
+    (hyne : ∃ u < ny, ∃ v < nx, y u v ≠ 0)
+    (hdisp : ∀ u < ny * pad, ∀ v < nx * pad,
+      zeroPad ny nx 0 x u v = roll2 (ny * pad) (nx * pad) sy sx (zeroPad ny nx 0 y) u v)
+    {y0 x0 wy wx : ℕ} (hbox : ContentInBox ny nx y0 x0 wy wx y)
+    (hloy : -((ny * pad / 2 : ℕ) : ℤ) ≤ sy - ((wy : ℤ) - 1))
+    (hhiy : sy + ((wy : ℤ) - 1) ≤ ((ny * pad : ℕ) : ℤ) - ((ny * pad / 2 : ℕ) : ℤ) - 1)
+    (hlox : -((nx * pad / 2 : ℕ) : ℤ) ≤ sx - ((wx : ℤ) - 1))
+    (hhix : sx + ((wx : ℤ) - 1) ≤ ((nx * pad : ℕ) : ℤ) - ((nx * pad / 2 : ℕ) : ℤ) - 1) :
+    corrTail ny nx pad t
+      (crossCorrelate ny nx pad (fun m => ζy ^ m) (fun m => ζx ^ m) (fun m => ζy⁻¹ ^ m) (fun m => ζx⁻¹ ^ m)
+        (1 / ((ny * pad : ℕ) : ℂ)) (1 / ((nx * pad : ℕ) : ℂ)) 0 (starRingEnd ℂ) (fun z => ‖z‖) idm
+        (fun u v => (x u v : ℂ)) (fun u v => (y u v : ℂ))).px
+      = (((nx / 2 : ℕ) : ℝ) + (sx : ℝ), ((ny / 2 : ℕ) : ℝ) + (sy : ℝ)) := by
+  -- the box is not empty
+  obtain ⟨u0, hu0, v0, hv0, hne0⟩ := hyne
+  obtain ⟨b1, b2, b3, b4⟩ := hbox u0 hu0 v0 hv0 hne0
+  -- only the frame is read: replace both arrays by their zero-extensions (non-negative everywhere)
+  have hcc : crossCorrelate ny nx pad (fun m => ζy ^ m) (fun m => ζx ^ m) (fun m => ζy⁻¹ ^ m) (fun m => ζx⁻¹ ^ m)
+        (1 / ((ny * pad : ℕ) : ℂ)) (1 / ((nx * pad : ℕ) : ℂ)) 0 (starRingEnd ℂ) (fun z => ‖z‖) idm
+        (fun u v => (x u v : ℂ)) (fun u v => (y u v : ℂ))
+      = crossCorrelate ny nx pad (fun m => ζy ^ m) (fun m => ζx ^ m) (fun m => ζy⁻¹ ^ m) (fun m => ζx⁻¹ ^ m)
+        (1 / ((ny * pad : ℕ) : ℂ)) (1 / ((nx * pad : ℕ) : ℂ)) 0 (starRingEnd ℂ) (fun z => ‖z‖) idm
+        (fun u v => ((zeroPad ny nx (0 : ℝ) x u v : ℝ) : ℂ)) (fun u v => ((zeroPad ny nx (0 : ℝ) y u v : ℝ) : ℂ)) := by
+    apply crossCorrelate_congr_frame
+    · intro u hu v hv; unfold zeroPad; rw [if_pos ⟨hu, hv⟩]
+    · intro u hu v hv; unfold zeroPad; rw [if_pos ⟨hu, hv⟩]
+  have hz : ∀ (z : ℕ → ℕ → ℝ), (∀ u < ny, ∀ v < nx, 0 ≤ z u v) → ∀ u v, 0 ≤ zeroPad ny nx 0 z u v := by
+    intro z hz u v; unfold zeroPad; split_ifs with hc
+    · exact hz u hc.1 v hc.2
+    · exact le_refl _
+  have hbox' : ContentInBox ny nx y0 x0 wy wx (zeroPad ny nx 0 y) := by
+    intro u hu v hv hne
+    unfold zeroPad at hne; rw [if_pos ⟨hu, hv⟩] at hne
+    exact hbox u hu v hv hne
+  have hdisp' : ∀ u < ny * pad, ∀ v < nx * pad, zeroPad ny nx 0 (zeroPad ny nx 0 x) u v
+      = roll2 (ny * pad) (nx * pad) sy sx (zeroPad ny nx 0 (zeroPad ny nx 0 y)) u v := by
+    rw [zeroPad_idem, zeroPad_idem]; exact hdisp
+  obtain ⟨my, hmy⟩ : ∃ my : ℕ, (my : ℤ) = ((ny * pad / 2 : ℕ) : ℤ) + sy :=
+    ⟨(((ny * pad / 2 : ℕ) : ℤ) + sy).toNat, Int.toNat_of_nonneg (by omega)⟩
+  obtain ⟨mx, hmx⟩ : ∃ mx : ℕ, (mx : ℤ) = ((nx * pad / 2 : ℕ) : ℤ) + sx :=
+    ⟨(((nx * pad / 2 : ℕ) : ℤ) + sx).toNat, Int.toNat_of_nonneg (by omega)⟩
+  rw [hcc]
+  apply corr_displacement hny hnx hpad hζy hζx sy sx ht1 _ _ (hz x hx0) (hz y hy0) _ hdisp' hmy hmx
+    (by omega) (by omega)
+  · exact corr_hnowrap_of_box hny hnx hpad hζy hζx sy sx _ _ (hz x hx0) (hz y hy0) hdisp' hmy hmx hbox'
+      hloy hhiy hlox hhix
+  · exact ⟨u0, hu0, v0, hv0, by unfold zeroPad; rw [if_pos ⟨hu0, hv0⟩]; exact hne0⟩
+
+/-- **corr_displacement_of_roll** — the displacement clause on the un-padded inputs of `correlation_centroid`.
+`ref` is ANY real `ny × nx` array that is not constant; its content (the pixels above its minimum, which
+`correlation_centroid` removes) lies in the box `[y0, y0+wy) × [x0, x0+wx)`; `im = numpy.roll(ref, (sy, sx))` with
+the displaced box still inside the frame; the lags `s ± (w − 1)` fit the window `[−⌊P/2⌋, P − ⌊P/2⌋ − 1]`,
+`P = n·padding`, on both axes.  Then `correlation_centroid(im, ref, threshold=t, padding)` (the model's `corrCentroid`
+over ℂ with complex conjugation, modulus and the twiddle tables of any primitive roots of unity) is exactly
+`(nx/2 + sx, ny/2 + sy)` — every frame size (odd or even), every padding ≥ 1, every threshold `t < 1`. -/
+theorem corr_displacement_of_roll {ny nx pad : ℕ} (hny : 0 < ny) (hnx : 0 < nx) (hpad : 0 < pad) {ζy ζx : ℂ}
+    (hζy : IsPrimitiveRoot ζy (ny * pad)) (hζx : IsPrimitiveRoot ζx (nx * pad)) (sy sx : ℤ) {t : ℝ} (ht1 : t < 1)
+    (ref : ℕ → ℕ → ℝ) (hne : ∃ u < ny, ∃ v < nx, ref u v ≠ min2 ny nx ref)
+    {y0 x0 wy wx : ℕ} (hbox : ContentInBox ny nx y0 x0 wy wx (fun u v => ref u v - min2 ny nx ref))
+    (hy0 : 0 ≤ (y0 : ℤ) + sy) (hy1 : (y0 : ℤ) + wy + sy ≤ ny) (hx0 : 0 ≤ (x0 : ℤ) + sx) (hx1 : (x0 : ℤ) + wx + sx ≤ nx)
+    (hloy : -((ny * pad / 2 : ℕ) : ℤ) ≤ sy - ((wy : ℤ) - 1))
+    (hhiy : sy + ((wy : ℤ) - 1) ≤ ((ny * pad : ℕ) : ℤ) - ((ny * pad / 2 : ℕ) : ℤ) - 1)
+    (hlox : -((nx * pad / 2 : ℕ) : ℤ) ≤ sx - ((wx : ℤ) - 1))
+    (hhix : sx + ((wx : ℤ) - 1) ≤ ((nx * pad : ℕ) : ℤ) - ((nx * pad / 2 : ℕ) : ℤ) - 1) :
+    corrCentroid ny nx pad (fun m => ζy ^ m) (fun m => ζx ^ m) (fun m => ζy⁻¹ ^ m) (fun m => ζx⁻¹ ^ m)
+        (1 / ((ny * pad : ℕ) : ℂ)) (1 / ((nx * pad : ℕ) : ℂ)) 0 (starRingEnd ℂ) (fun z => ‖z‖) idm
+        (fun r : ℝ => (r : ℂ)) t (roll2 ny nx sy sx ref) ref
+      = (((nx / 2 : ℕ) : ℝ) + (sx : ℝ), ((ny / 2 : ℕ) : ℝ) + (sy : ℝ)) := by
+  have hin : ContentInside ny nx sy sx (fun u v => ref u v - min2 ny nx ref) := hbox.inside hy0 hy1 hx0 hx1
+  obtain ⟨_, hdisp⟩ := corr_hdisp_of_roll hny hnx hpad sy sx ref hin
+  obtain ⟨u0, hu0, v0, hv0, hne0⟩ := hne
+  exact corr_displacement_of_box hny hnx hpad hζy hζx sy sx ht1
+    (fun u v => roll2 ny nx sy sx ref u v - min2 ny nx (roll2 ny nx sy sx ref)) (fun u v => ref u v - min2 ny nx ref)
+    (fun u hu v hv => sub_min2_nonneg hny hnx (roll2 ny nx sy sx ref) hu hv)
+    (fun u hu v hv => sub_min2_nonneg hny hnx ref hu hv)
+    ⟨u0, hu0, v0, hv0, sub_ne_zero.mpr hne0⟩ hdisp hbox hloy hhiy hlox hhix
+
+/-- for every padding ≥ 2 the lag conditions are automatic: ANY roll that keeps the content box inside the frame -/
+theorem corr_displacement_of_roll_pad_ge_two {ny nx pad : ℕ} (hny : 0 < ny) (hnx : 0 < nx) (hpad : 2 ≤ pad) {ζy ζx : ℂ}
+    (hζy : IsPrimitiveRoot ζy (ny * pad)) (hζx : IsPrimitiveRoot ζx (nx * pad)) (sy sx : ℤ) {t : ℝ} (ht1 : t < 1)
+    (ref : ℕ → ℕ → ℝ) (hne : ∃ u < ny, ∃ v < nx, ref u v ≠ min2 ny nx ref)
+    {y0 x0 wy wx : ℕ} (hbox : ContentInBox ny nx y0 x0 wy wx (fun u v => ref u v - min2 ny nx ref))
+    (hby : y0 + wy ≤ ny) (hbx : x0 + wx ≤ nx)
+    (hy0 : 0 ≤ (y0 : ℤ) + sy) (hy1 : (y0 : ℤ) + wy + sy ≤ ny) (hx0 : 0 ≤ (x0 : ℤ) + sx) (hx1 : (x0 : ℤ) + wx + sx ≤ nx) :
+    corrCentroid ny nx pad (fun m => ζy ^ m) (fun m => ζx ^ m) (fun m => ζy⁻¹ ^ m) (fun m => ζx⁻¹ ^ m)
+        (1 / ((ny * pad : ℕ) : ℂ)) (1 / ((nx * pad : ℕ) : ℂ)) 0 (starRingEnd ℂ) (fun z => ‖z‖) idm
+        (fun r : ℝ => (r : ℂ)) t (roll2 ny nx sy sx ref) ref
+      = (((nx / 2 : ℕ) : ℝ) + (sx : ℝ), ((ny / 2 : ℕ) : ℝ) + (sy : ℝ)) := by
+  have h2y : ny * 2 ≤ ny * pad := Nat.mul_le_mul_left ny hpad
+  have h2x : nx * 2 ≤ nx * pad := Nat.mul_le_mul_left nx hpad
+  apply corr_displacement_of_roll hny hnx (by omega) hζy hζx sy sx ht1 ref hne hbox hy0 hy1 hx0 hx1
+  · generalize ny * pad = P at h2y; omega
+  · generalize ny * pad = P at h2y; omega
+  · generalize nx * pad = P at h2x; omega
+  · generalize nx * pad = P at h2x; omega
+
+/-- the form of the task statement: a NON-NEGATIVE reference whose support (non-zero pixels) lies in the box and that is
+not constant -/
+theorem corr_displacement_of_roll_nonneg {ny nx pad : ℕ} (hny : 0 < ny) (hnx : 0 < nx) (hpad : 0 < pad) {ζy ζx : ℂ}
+    (hζy : IsPrimitiveRoot ζy (ny * pad)) (hζx : IsPrimitiveRoot ζx (nx * pad)) (sy sx : ℤ) {t : ℝ} (ht1 : t < 1)
+    (ref : ℕ → ℕ → ℝ) (hnn : ∀ u < ny, ∀ v < nx, 0 ≤ ref u v) (hne : ∃ u < ny, ∃ v < nx, ref u v ≠ min2 ny nx ref)
+    {y0 x0 wy wx : ℕ} (hsupp : ContentInBox ny nx y0 x0 wy wx ref)
+    (hy0 : 0 ≤ (y0 : ℤ) + sy) (hy1 : (y0 : ℤ) + wy + sy ≤ ny) (hx0 : 0 ≤ (x0 : ℤ) + sx) (hx1 : (x0 : ℤ) + wx + sx ≤ nx)
+    (hloy : -((ny * pad / 2 : ℕ) : ℤ) ≤ sy - ((wy : ℤ) - 1))
+    (hhiy : sy + ((wy : ℤ) - 1) ≤ ((ny * pad : ℕ) : ℤ) - ((ny * pad / 2 : ℕ) : ℤ) - 1)
+    (hlox : -((nx * pad / 2 : ℕ) : ℤ) ≤ sx - ((wx : ℤ) - 1))
+    (hhix : sx + ((wx : ℤ) - 1) ≤ ((nx * pad : ℕ) : ℤ) - ((nx * pad / 2 : ℕ) : ℤ) - 1) :
+    corrCentroid ny nx pad (fun m => ζy ^ m) (fun m => ζx ^ m) (fun m => ζy⁻¹ ^ m) (fun m => ζx⁻¹ ^ m)
+        (1 / ((ny * pad : ℕ) : ℂ)) (1 / ((nx * pad : ℕ) : ℂ)) 0 (starRingEnd ℂ) (fun z => ‖z‖) idm
+        (fun r : ℝ => (r : ℂ)) t (roll2 ny nx sy sx ref) ref
+      = (((nx / 2 : ℕ) : ℝ) + (sx : ℝ), ((ny / 2 : ℕ) : ℝ) + (sy : ℝ)) := by
+  apply corr_displacement_of_roll hny hnx hpad hζy hζx sy sx ht1 ref hne _ hy0 hy1 hx0 hx1 hloy hhiy hlox hhix
+  intro u hu v hv hd
+  apply hsupp u hu v hv
+  intro h0
+  obtain ⟨⟨a, ha, b, hb, e⟩, hle⟩ := min2_spec hny hnx ref
+  have h1 : min2 ny nx ref ≤ 0 := by rw [← h0]; exact hle u hu v hv
+  have h2 : 0 ≤ min2 ny nx ref := by rw [e]; exact hnn a ha b hb
+  exact hd (by show ref u v - min2 ny nx ref = 0; rw [h0, le_antisymm h1 h2, sub_zero])
+
+/-- the same for a `(t, y, x)` stack: frame `i` displaced by its own `s i` -/
+theorem corr_displacement_of_roll_stack {ι : Type} {ny nx pad : ℕ} (hny : 0 < ny) (hnx : 0 < nx) (hpad : 0 < pad)
+    {ζy ζx : ℂ} (hζy : IsPrimitiveRoot ζy (ny * pad)) (hζx : IsPrimitiveRoot ζx (nx * pad)) (s : ι → ℤ × ℤ) {t : ℝ}
+    (ht1 : t < 1) (ref : ℕ → ℕ → ℝ) (hne : ∃ u < ny, ∃ v < nx, ref u v ≠ min2 ny nx ref)
+    {y0 x0 wy wx : ℕ} (hbox : ContentInBox ny nx y0 x0 wy wx (fun u v => ref u v - min2 ny nx ref)) (i : ι)
+    (hy0 : 0 ≤ (y0 : ℤ) + (s i).1) (hy1 : (y0 : ℤ) + wy + (s i).1 ≤ ny)
+    (hx0 : 0 ≤ (x0 : ℤ) + (s i).2) (hx1 : (x0 : ℤ) + wx + (s i).2 ≤ nx)
+    (hloy : -((ny * pad / 2 : ℕ) : ℤ) ≤ (s i).1 - ((wy : ℤ) - 1))
+    (hhiy : (s i).1 + ((wy : ℤ) - 1) ≤ ((ny * pad : ℕ) : ℤ) - ((ny * pad / 2 : ℕ) : ℤ) - 1)
+    (hlox : -((nx * pad / 2 : ℕ) : ℤ) ≤ (s i).2 - ((wx : ℤ) - 1))
+    (hhix : (s i).2 + ((wx : ℤ) - 1) ≤ ((nx * pad : ℕ) : ℤ) - ((nx * pad / 2 : ℕ) : ℤ) - 1) :
+    corrCentroidN ny nx pad (fun m => ζy ^ m) (fun m => ζx ^ m) (fun m => ζy⁻¹ ^ m) (fun m => ζx⁻¹ ^ m)
+        (1 / ((ny * pad : ℕ) : ℂ)) (1 / ((nx * pad : ℕ) : ℂ)) 0 (starRingEnd ℂ) (fun z => ‖z‖) idm
+        (fun r : ℝ => (r : ℂ)) t (fun j => roll2 ny nx (s j).1 (s j).2 ref) ref i
+      = (((nx / 2 : ℕ) : ℝ) + ((s i).2 : ℝ), ((ny / 2 : ℕ) : ℝ) + ((s i).1 : ℝ)) :=
+  corr_displacement_of_roll hny hnx hpad hζy hζx (s i).1 (s i).2 ht1 ref hne hbox hy0 hy1 hx0 hx1 hloy hhiy hlox hhix
+
+/-- non-vacuity of the hypothesis set of `corr_displacement_of_roll` over ℝ with padding 1 and a non-trivial shift:
+the 1×3 reference `[0, 1, 0]` (content box `x0 = 1`, `w = 1`) displaced by one pixel to the right -/
+example : let ref : ℕ → ℕ → ℝ := fun _ v => if v = 1 then 1 else 0
+    (∃ u < 1, ∃ v < 3, ref u v ≠ min2 1 3 ref)
+    ∧ ContentInBox 1 3 0 1 1 1 (fun u v => ref u v - min2 1 3 ref)
+    ∧ (0 ≤ ((0 : ℕ) : ℤ) + 0 ∧ ((0 : ℕ) : ℤ) + (1 : ℕ) + 0 ≤ (1 : ℕ))
+    ∧ (0 ≤ ((1 : ℕ) : ℤ) + 1 ∧ ((1 : ℕ) : ℤ) + (1 : ℕ) + 1 ≤ (3 : ℕ))
+    ∧ (-((1 * 1 / 2 : ℕ) : ℤ) ≤ 0 - (((1 : ℕ) : ℤ) - 1) ∧ 0 + (((1 : ℕ) : ℤ) - 1) ≤ ((1 * 1 : ℕ) : ℤ) - ((1 * 1 / 2 : ℕ) : ℤ) - 1)
+    ∧ (-((3 * 1 / 2 : ℕ) : ℤ) ≤ 1 - (((1 : ℕ) : ℤ) - 1) ∧ 1 + (((1 : ℕ) : ℤ) - 1) ≤ ((3 * 1 : ℕ) : ℤ) - ((3 * 1 / 2 : ℕ) : ℤ) - 1) := by
+  intro ref
+  have hm : min2 1 3 ref = 0 := by
+    apply min2_unique (by norm_num) (by norm_num)
+    · exact ⟨0, by norm_num, 0, by norm_num, by simp [ref]⟩
+    · intro u _ v _; simp only [ref]; split_ifs <;> norm_num
+  refine ⟨⟨0, by norm_num, 1, by norm_num, by rw [hm]; simp [ref]⟩, ?_, by norm_num, by norm_num, by norm_num, by norm_num⟩
+  intro u hu v hv hne
+  replace hne : ref u v - min2 1 3 ref ≠ 0 := hne
+  rw [hm, sub_zero] at hne
+  have hv1 : v = 1 := by
+    by_contra h; exact hne (by simp [ref, h])
+  omega
 
 /-- non-vacuity of `hdisp`: on a 1×2 frame (padding 1) the frame `[0,1]` is the reference `[1,0]` displaced by one pixel -/
 example : ∀ u < 1 * 1, ∀ v < 2 * 1,
